@@ -20,6 +20,10 @@ pub enum Hint {
     Opaque,
     /// `size_hint()` reports the bytes currently available (and the exact rest once closed)
     Truthful,
+    /// a legal but inexact hint, like `filter` or `take_while` give: the lower bound is below what
+    /// will come (half of the bytes currently available), the upper bound is what the stream can
+    /// at most still deliver
+    Loose,
 }
 
 #[derive(Clone, Debug, PartialEq, Eq, Hash, Serialize, Deserialize)]
@@ -259,6 +263,13 @@ impl Iterator for SimSource {
     fn size_hint(&self) -> (usize, Option<usize>) {
         match self.hint {
             Hint::Opaque => (0, None),
+            Hint::Loose => {
+                let w = self.w.borrow();
+                let s = &w.streams[self.stream];
+                let avail = s.delivered - self.pos.min(s.delivered);
+                let most = if s.closed { avail } else { s.content.len() - self.pos.min(s.content.len()) };
+                (avail / 2, Some(most))
+            }
             Hint::Truthful => {
                 let mut w = self.w.borrow_mut();
                 let s = &w.streams[self.stream];
@@ -672,7 +683,10 @@ fn exec<'a>(
         if sc.finish_style > 0 && h < 3 {
             let style = sc.finish_style - 1;
             let pre = (hst.got.len() + h) % 4;
-            let a = pma.consume_iter(hspec.method, Box::new(fin.to_vec().into_iter()), pre, style);
+            // the source: a vector's iterator (exact size hint) or the same behind `filter`
+            // (lower bound 0, upper bound the length)
+            let src: pma::ByteSrc = if (fin.len() + pre) % 2 == 0 { Box::new(fin.to_vec().into_iter()) } else { Box::new(fin.to_vec().into_iter().filter(|_| true)) };
+            let a = pma.consume_iter(hspec.method, src, pre, style);
             // what taking the slice search's matches (`want`, collected with next()) in that way gives
             let model = pma::consume(want.iter().copied(), |m| m, pre, style);
             if a != model {
@@ -734,7 +748,7 @@ pub fn generate(seed: u64) -> Scenario {
         .map(|_| HandleSpec {
             method: *rng.pick(&STD_METHODS),
             stream: rng.below(nstreams),
-            hint: if rng.chance(1, 2) { Hint::Truthful } else { Hint::Opaque },
+            hint: *rng.pick(&[Hint::Truthful, Hint::Truthful, Hint::Opaque, Hint::Opaque, Hint::Loose]),
         })
         .collect();
 
@@ -909,7 +923,7 @@ fn generate_long(rng: &mut Rng, spec: Spec) -> Scenario {
         .map(|_| HandleSpec {
             method: *rng.pick(&STD_METHODS),
             stream: 0,
-            hint: if rng.chance(1, 2) { Hint::Truthful } else { Hint::Opaque },
+            hint: *rng.pick(&[Hint::Truthful, Hint::Truthful, Hint::Opaque, Hint::Opaque, Hint::Loose]),
         })
         .collect();
     let mut events = vec![];
@@ -946,7 +960,7 @@ pub fn sweep_scenarios(base: &Scenario) -> Vec<Scenario> {
     for &cut in &cuts {
         for (mi, m) in STD_METHODS.iter().enumerate() {
             for sched in 0..3 {
-                let hint = if (cut + mi + sched) % 2 == 0 { Hint::Truthful } else { Hint::Opaque };
+                let hint = match (cut + mi + sched) % 3 { 0 => Hint::Truthful, 1 => Hint::Opaque, _ => Hint::Loose };
                 let mut ev = vec![];
                 match sched {
                     0 => {
